@@ -30,7 +30,7 @@ REQUIRED = {
     "permutation_checks": 30, "zero_gradient_checks": 30,
     "per_sample_decompositions": 20, "batch_size_one_checks": 8,
 }
-TIMEOUT = {"quick": 1500, "thorough": 3400}
+TIMEOUT = {"quick": 1500, "thorough": 7000}
 ASSUMPTIONS = [
     "references follow the docstrings: TD7 value clipping, MR.Q reward scaling "
     "and n-step discount, LAP's Huber with min_priority, PER's mean TD-error aux",
@@ -44,7 +44,7 @@ GAMMAS = [0.0, 0.5, 0.99, 1.0]
 
 def gen_cases(tier, seed):
     rng = np.random.default_rng(seed + 303)
-    k = 2 if tier == "quick" else 12
+    k = 2 if tier == "quick" else 36
     cases = []
     for loss in LOSSES:
         for N in (1, 2, 4, 6):
